@@ -12,6 +12,7 @@ import dataclasses
 import enum
 import hashlib
 import inspect
+import os
 import textwrap
 import time
 import types
@@ -133,12 +134,7 @@ def purify(t: Any) -> Any:
         r = t
     elif t.sort().kind() == z3.Z3_INT_SORT and z3.is_app(t) and \
             any(c.sort().kind() in (z3.Z3_SEQ_SORT, z3.Z3_RE_SORT) for c in t.children()):
-        nm = t.decl().name()
-        if nm in ("seq.nth", "seq.nth_i") and z3.is_int_value(t.arg(1)):
-            # z3.simplify rewrites s[i] into ite(len(s) <= i, nth_u, nth_i): one name for both
-            r = z3.Int(f"pure!nth!{t.arg(0).get_id()}!{t.arg(1).as_long()}")
-        else:
-            r = z3.Int(f"pure!{k}")
+        r = z3.Int(f"pure!{k}")
     elif z3.is_app(t) and t.num_args() > 0 and t.sort().kind() not in (z3.Z3_SEQ_SORT,
                                                                          z3.Z3_RE_SORT):
         ch = [purify(c) for c in t.children()]
